@@ -59,8 +59,10 @@ func lockCfg(dir string) *comet.StorageConfig { return lockCfgV(dir, "vtm") }
 func lockCfgV(dir, variant string) *comet.StorageConfig {
 	cfg := comet.DefaultStorageConfig(dir)
 	cfg.CompactionInterval = time.Hour
-	v, _ := comet.NewFlatIndex(2, comet.L2Squared)
-	cfg.VectorIndexTemplate = v
+	if strings.Contains(variant, "v") {
+		v, _ := comet.NewFlatIndex(2, comet.L2Squared)
+		cfg.VectorIndexTemplate = v
+	}
 	if strings.Contains(variant, "t") {
 		cfg.TextIndexTemplate = comet.NewBM25SearchIndex()
 	}
@@ -161,7 +163,7 @@ func drvLock(args []string) error {
 					}
 				}
 				before := dirSig(dir)
-				variant := []string{"vtm", "vtm", "vt", "v"}[rng.Intn(4)]
+				variant := []string{"vtm", "vtm", "vt", "v", "vtm", "vtm", "vt", "-"}[rng.Intn(8)] // "-": no template at all
 				st, err := comet.OpenPersistentHybridIndex(lockCfgV(dir, variant))
 				fault.Store("none")
 				id := next
@@ -170,6 +172,12 @@ func drvLock(args []string) error {
 					handles[id] = st
 				}
 				t.ev("open", E{"h": id, "fault": f, "ok": err == nil, "lockAfter": lockPresent(dir), "dirSame": before == dirSig(dir)})
+				if err == nil && variant == "-" { // nothing can be stored through this handle: close it again at once
+					before, lc := dirSig(dir), lockContent(dir)
+					err := st.Close()
+					same := before == dirSig(dir) && lc == lockContent(dir)
+					t.ev("close", E{"h": id, "ok": err == nil, "lockAfter": lockPresent(dir), "dirSame": same})
+				}
 			case x < 7: // close some handle (possibly an already closed one)
 				if len(handles) == 0 {
 					continue
@@ -213,6 +221,52 @@ func drvLock(args []string) error {
 		}
 		for _, st := range handles {
 			st.Close()
+		}
+	}
+	// a slow final flush: the closing flusher is held at a hook for longer than any plausible grace period; Close must still be
+	// waiting when it is released (a Close that gives up on its workers hands the directory over while they can still write)
+	if *cf.count > 0 {
+		dir := filepath.Join(root, "slow")
+		t.ev("reset", E{})
+		if st, err := comet.OpenPersistentHybridIndex(lockCfg(dir)); err == nil {
+			st.AddWithID(1, []float32{1, 2}, "aa", map[string]any{"k": 1})
+			parked, release := make(chan struct{}), make(chan struct{})
+			var once atomic.Bool
+			comet.VerifSetHandler(func(point string, args ...any) {
+				if point == "flush.written" && once.CompareAndSwap(false, true) {
+					close(parked)
+					select {
+					case <-release:
+					case <-time.After(30 * time.Second):
+					}
+				}
+			})
+			done := make(chan error, 1)
+			go func() { done <- st.Close() }()
+			early, reached, second, same := false, false, false, true
+			select {
+			case <-parked:
+				reached = true
+				select {
+				case <-done: // Close returned although its flusher is still inside the final flush
+					early = true
+					sig := dirSig(dir)
+					if st2, err2 := comet.OpenPersistentHybridIndex(lockCfg(dir)); err2 == nil {
+						second = true
+						defer st2.Close()
+					}
+					close(release)
+					time.Sleep(500 * time.Millisecond)
+					same = sig == dirSig(dir)
+				case <-time.After(6500 * time.Millisecond):
+					close(release)
+					<-done
+				}
+			case <-done: // the hook was not reached (nothing to flush): nothing forced
+			case <-time.After(20 * time.Second):
+			}
+			comet.VerifSetHandler(nil)
+			t.ev("slowclose", E{"reached": reached, "early": early, "secondOpen": second, "dirSame": same})
 		}
 	}
 	// concurrent rounds
